@@ -209,11 +209,15 @@ func c20RegisterHandlers(srv *http.Server) {
 	})
 }
 
-func c20NewWorld() *c20World {
+func c20NewWorld() *c20World { return c20NewWorldMTU(65535) }
+
+// c20NewWorldMTU: with an Ethernet-sized MTU a large message leaves in many segments and is
+// still (partly) queued in the TCP sender when the application goes on to its next message.
+func c20NewWorldMTU(mtu uint32) *c20World {
 	w := NewWorld()
 	ScriptRand(11, 22, 33, 44, 55, 66)
 	c := &c20World{w: w, burst: 1}
-	c.n = w.AddNode(NodeCfg{Name: "S", V4: []tcpip.Address{addrA4}, MTU: 65535})
+	c.n = w.AddNode(NodeCfg{Name: "S", V4: []tcpip.Address{addrA4}, MTU: mtu})
 	srv := http.NewHTTP("tap-unused", "10.0.0.0/24", "10.0.0.1", fmt.Sprint(c20Port))
 	c20RegisterHandlers(srv)
 	go srv.ListenAndServ()
@@ -818,7 +822,7 @@ func c20Jobs(tier string) []string {
 	for i := 0; i < 4; i++ {
 		jobs = append(jobs, fmt.Sprintf("ws-len:u:%d/4", i), fmt.Sprintf("ws-len:m:%d/4", i))
 	}
-	jobs = append(jobs, "ws-big")
+	jobs = append(jobs, "ws-big", "ws-mtu1500:0/2", "ws-mtu1500:1/2")
 	for i := 0; i < 16; i++ {
 		jobs = append(jobs, fmt.Sprintf("ws-sched:%d/16", i))
 	}
@@ -835,6 +839,7 @@ func c20Run(job, tier string, deadline time.Time) *engine.Result {
 		r.Outcomes = append(r.Outcomes, engine.Hash(job, len(r.Violations)))
 		_ = runtime.NumGoroutine
 	}()
+	mtu := uint32(65535)
 	c := c20NewWorld()
 	defer func() { c.close() }()
 	knownSeen := 0
@@ -850,7 +855,7 @@ func c20Run(job, tier string, deadline time.Time) *engine.Result {
 			r.AddExtra("executions_hitting_a_known_finding", 1)
 			// the connection is stuck behind the swallowed frame: continue on a fresh world
 			func() { defer func() { recover() }(); c.close() }()
-			c = c20NewWorld()
+			c = c20NewWorldMTU(mtu)
 			return false
 		}
 		if f != nil && len(r.Violations) < 4 {
@@ -974,6 +979,34 @@ func c20Run(job, tier string, deadline time.Time) *engine.Result {
 			}
 		}
 		r.Sample(map[string]interface{}{"lengths": []int{200 * 1024, 300 * 1024}})
+	case "ws-mtu1500":
+		// Ethernet-sized segments: a 20000-byte message is 14 segments, more than the initial
+		// congestion window, so its tail is still queued when the next message is produced
+		var i, n int
+		fmt.Sscanf(parts[1], "%d/%d", &i, &n)
+		func() { defer func() { recover() }(); c.close() }()
+		mtu = 1500
+		c = c20NewWorldMTU(mtu)
+		k := 0
+		for _, lens := range [][]int{{20000, 7}, {20000, 20000}, {7, 20000}, {30000, 126, 5}} {
+			for _, push := range [][]int{nil, {20000, 20000}, {20000, 7}} {
+				for _, masked := range []bool{false, true} {
+					for _, pipe := range []bool{false, true} {
+						for _, burst := range []int{0, -1} {
+							k++
+							if k%n != i {
+								continue
+							}
+							q := c20WS{Lens: lens, Push: push, Masked: masked, Key: 0x01020304, WSKey: "dGhlIHNhbXBsZSBub25jZQ==", Pipeline: pipe, Burst: burst}
+							if report(c.doWS(q), map[string]interface{}{"ws": q, "mtu": 1500}) {
+								return r
+							}
+						}
+					}
+				}
+			}
+		}
+		r.Sample(map[string]interface{}{"mtu": 1500, "messages": "20000/30000-byte messages followed by shorter or equal ones, pushes and echoes, pipelined and lock-step"})
 	case "ws-sched":
 		// pacing of the two applications against the arrival of segments: every gate vector
 		// over {run at once, after 1 frame, after 2 frames, when idle} for the server's three
@@ -1042,12 +1075,17 @@ func c20Replay(rp json.RawMessage) *engine.Violation {
 		HTTP   []c20Req   `json:"http"`
 		WS     *c20WS     `json:"ws"`
 		Accept *c20AcceptCase `json:"accept"`
+		MTU    uint32         `json:"mtu"`
 	}
 	if json.Unmarshal(rp, &p) != nil {
 		return nil
 	}
 	c := c20NewWorld()
-	defer c.close()
+	if p.MTU != 0 {
+		c.close()
+		c = c20NewWorldMTU(p.MTU)
+	}
+	defer func() { c.close() }()
 	var f *c20Fail
 	for i, q := range p.HTTP {
 		if f = c.doHTTP(q, 5000+i); f != nil {
